@@ -199,6 +199,25 @@ PropAdderR(a, b, out, r) == /\ RepR(Add(TypeMaxR(a, r), TypeMaxR(b, r)), out, r)
                             /\ RepR(Add(TypeMinR(a, r), TypeMinR(b, r)), out, r)
                             /\ StepR(out, r) <= Min(StepR(a, r), StepR(b, r))
 PropAdder(a, b, out) == PropAdderR(a, b, out, TRUE) \/ PropAdderR(a, b, out, FALSE)
+\* which part of the adder / accumulator / containment property fails (for the identity of a finding); the reading of
+\* AmbiguousIntBits with fewer failing parts is reported
+AdderPartsR(a, b, out, r) ==
+  (IF RepR(Add(TypeMaxR(a, r), TypeMaxR(b, r)), out, r) THEN {} ELSE {"top"})
+  \cup (IF RepR(Add(TypeMinR(a, r), TypeMinR(b, r)), out, r) THEN {} ELSE {"bottom"})
+  \cup (IF StepR(out, r) <= Min(StepR(a, r), StepR(b, r)) THEN {} ELSE {"step"})
+AccPartsR(n, m, acc, r) ==
+  (IF RepR(Scale(TypeMaxR(m, r), n), acc, r) THEN {} ELSE {"top"})
+  \cup (IF RepR(Scale(TypeMinR(m, r), n), acc, r) THEN {} ELSE {"bottom"})
+  \cup (IF StepR(acc, r) <= StepR(m, r) THEN {} ELSE {"step"})
+ContainPartsR(a, out, r) ==
+  (IF RepR(TypeMaxR(a, r), out, r) THEN {} ELSE {"top"}) \cup (IF RepR(TypeMinR(a, r), out, r) THEN {} ELSE {"bottom"})
+  \cup (IF StepR(out, r) <= StepR(a, r) THEN {} ELSE {"step"})
+Fewer(P1, P2) == IF Cardinality(P1) <= Cardinality(P2) THEN P1 ELSE P2
+AdderParts(a, b, out) == Fewer(AdderPartsR(a, b, out, TRUE), AdderPartsR(a, b, out, FALSE))
+AccParts(n, m, acc) == Fewer(AccPartsR(n, m, acc, TRUE), AccPartsR(n, m, acc, FALSE))
+MergeSelectParts(a, b, out) == Fewer(ContainPartsR(a, out, TRUE) \cup ContainPartsR(b, out, TRUE),
+                                     ContainPartsR(a, out, FALSE) \cup ContainPartsR(b, out, FALSE))
+PartName(P) == IF "step" \in P THEN (IF P = {"step"} THEN "step" ELSE "range_and_step") ELSE "range"
 \* ------------------------------------------------------------ merge layers (merge_factory.py)
 \* Add: the adder property on the two operand types.  Maximum / Minimum / Concatenate select operand values: the output
 \* type has to contain both operand types.
